@@ -118,3 +118,17 @@ func hostilize(rt *rapid.T, tree *gen.Node, escaped bool) {
 		}
 	})
 }
+
+// dirtyState makes a few renders that fail half-way (a rejected value after an
+// accepted one, a refused column name, an unrenderable operator). Called now and
+// then between cases, it leaves behind whatever state a renderer wrongly keeps
+// across calls (pooled buffers, caches), so that the next case sees it.
+func dirtyState() {
+	for _, q := range []string{"a:(\"ok\" OR \"b\x00d\")", "a:[\"ok\" TO \"\xff\"]", "x:1 AND \"q\\\"r\":2", "a:b AND c~2", "k:(1 OR 2 OR \"\x00\")", "a:\"left\" AND b:/\x00/"} {
+		func() {
+			defer func() { _ = recover() }()
+			_, _ = toPG(q, "")
+			_, _, _ = toPGParam(q, "dflt")
+		}()
+	}
+}
